@@ -404,3 +404,16 @@ Example C09_concrete_columns :
   c09_case_cols false (SrcPerChunk [[5; 5; 5]; [5; 4; 5]; [4; 4; 4]] false) false false false FAbsent ORaise false false HClosed true = 64 /\
   c09_case_cols false (SrcPerChunk [[5; 5; 5]; [5; 4; 5]; [4; 4; 4]] true) false false false FAbsent ORaise true false HClosed true = 0.
 Proof. vm_compute. repeat split; reflexivity. Qed.
+
+(* ---------------- single decisions whose variants were seeded (Model/SmallVariants.v) ---------------- *)
+From Verif Require SmallVariants SmallVariantsP.
+(* a missing value is refused in every representation once the column is cast before it is checked; a check on the raw
+   column does not look into arrays of python objects *)
+Theorem C09_missing_refused_after_cast : forall c : SmallVariants.column,
+  SmallVariants.has_missing c = true -> SmallVariants.refuses_after_cast c = true.
+Proof. exact SmallVariantsP.after_cast_refuses_every_missing. Qed.
+Print Assumptions C09_missing_refused_after_cast.
+Theorem C09_raw_finite_check_refuted : exists c : SmallVariants.column,
+  SmallVariants.has_missing c = true /\ SmallVariants.refuses_raw c = false.
+Proof. exact SmallVariantsP.raw_check_refuted. Qed.
+Print Assumptions C09_raw_finite_check_refuted.
